@@ -239,7 +239,7 @@ def step(cls, meth="propagate", pieces_only=False):
                     run.prove("shift.finite", finite(sh), note="e_estimate - 0.1 log(.)/dt is finite (|log| <= 800, dt >= 1e-12, |e_estimate| <= 1e300)")
         finally:
             hv.restore()
-    return run_scenario(f"C09.w.{cls}.{meth}", sc, functions=[q], timeout_ms=60000, no_exception="noexc")
+    return run_scenario(f"C09.w.{cls}.{meth}", sc, functions=[q], timeout_ms=180000, no_exception="noexc")
 
 
 def init_weights():
